@@ -264,6 +264,14 @@ func (r *Run) Finish(rule string, assumptions ...string) {
 	}
 	for k, s := range r.sets {
 		cov["distinct_"+k] = len(s)
+		if len(s) <= 12 { // small sets are informative member by member
+			ms := make([]string, 0, len(s))
+			for m := range s {
+				ms = append(ms, m)
+			}
+			sort.Strings(ms)
+			cov["members_"+k] = ms
+		}
 	}
 	if len(r.knownHit) > 0 {
 		kh := map[string]int{}
